@@ -287,14 +287,12 @@ def check_props(ctx, prop=None):
 
 
 def summarize_assumptions(text):
-    """Distinct axiom names reported by Print Assumptions."""
-    axioms = set()
-    closed = 0
-    for block in re.split(r"\n(?=\S)", text):
-        pass
+    """Distinct axiom names reported by Print Assumptions, and the number of closed theorems."""
     closed = len(re.findall(r"Closed under the global context", text))
-    for m in re.finditer(r"^([A-Za-z_][\w.']*)\s*:", text, re.M):
-        axioms.add(m.group(1))
+    axioms = set()
+    for m in re.finditer(r"^([A-Za-z_][\w.']*)\s*\n?\s*:", text, re.M):
+        if m.group(1) != "Axioms":
+            axioms.add(m.group(1))
     return sorted(axioms), closed
 
 
